@@ -1,11 +1,11 @@
 package main
 
 import (
-	"math/bits"
 	"fmt"
 	"go/token"
 	"go/types"
 	"html"
+	"math/bits"
 	"mime"
 	"net/textproto"
 	"reflect"
@@ -62,10 +62,15 @@ func init() {
 		"(*strings.Builder).WriteByte":   inSBWriteByte,
 		"(*strings.Builder).WriteRune":   inSBWriteRune,
 		"(*strings.Builder).String":      inSBString,
-		"(*strings.Builder).Len":         func(m *Machine, fr *frame, fn *ssa.Function, a []Value) Value { return Int{V: uint64(len(sbBuf(a[0])))} },
-		"(*strings.Builder).Reset":       func(m *Machine, fr *frame, fn *ssa.Function, a []Value) Value { (*a[0].(*Value)).(Struct)[1] = []Value(nil); return nil },
-		"regexp.Compile":                 inReCompile,
-		"regexp.QuoteMeta":               inQuoteMeta,
+		"(*strings.Builder).Len": func(m *Machine, fr *frame, fn *ssa.Function, a []Value) Value {
+			return Int{V: uint64(len(sbBuf(a[0])))}
+		},
+		"(*strings.Builder).Reset": func(m *Machine, fr *frame, fn *ssa.Function, a []Value) Value {
+			(*a[0].(*Value)).(Struct)[1] = []Value(nil)
+			return nil
+		},
+		"regexp.Compile":                           inReCompile,
+		"regexp.QuoteMeta":                         inQuoteMeta,
 		"(*regexp.Regexp).FindStringIndex":         inReFind,
 		"(*regexp.Regexp).FindStringSubmatchIndex": inReFind,
 		"(*regexp.Regexp).MatchString":             inReMatch,
@@ -98,10 +103,12 @@ func init() {
 		"net/http.CanonicalHeaderKey":              inCanonicalKey,
 		"strconv.Itoa":                             inItoa,
 		"strconv.ParseFloat":                       inParseFloat,
-		"strconv.Quote":                            func(m *Machine, fr *frame, fn *ssa.Function, a []Value) Value { return concat(concat(Str{S: "\""}, a[0].(Str)), Str{S: "\""}) },
-		"mime.ParseMediaType":                      inParseMediaType,
-		"net/http/httputil.DumpRequest":            inDumpRequest,
-		"html.EscapeString":                        inEscapeString,
+		"strconv.Quote": func(m *Machine, fr *frame, fn *ssa.Function, a []Value) Value {
+			return concat(concat(Str{S: "\""}, a[0].(Str)), Str{S: "\""})
+		},
+		"mime.ParseMediaType":           inParseMediaType,
+		"net/http/httputil.DumpRequest": inDumpRequest,
+		"html.EscapeString":             inEscapeString,
 	}
 }
 
@@ -1240,6 +1247,7 @@ func init() {
 		}
 		return Int{V: 1}
 	}
+	intrinsics["strings.Compare"] = intrinsics["internal/bytealg.Compare"]
 	intrinsics["internal/bytealg.LastIndexByteString"] = func(m *Machine, fr *frame, fn *ssa.Function, a []Value) Value {
 		return inLastIndexByte(m, fr, fn, []Value{asStr(a[0]), a[1]})
 	}
